@@ -42,6 +42,15 @@ def prepare():
     _p.prepare()
 
 
+def warmup_imports():
+    if STUBS not in sys.path:
+        sys.path.insert(0, STUBS)
+    for m in [m for m in list(sys.modules) if m == 'pyk' or m.startswith('pyk.')]:
+        if not getattr(sys.modules[m], '__file__', '').startswith(STUBS):
+            del sys.modules[m]
+    import proof_generation.k.execution_proof_generation  # noqa
+
+
 def warmup(ctx):
     if STUBS not in sys.path:
         sys.path.insert(0, STUBS)
@@ -390,6 +399,54 @@ def _where(exc, e, sc):
         if 'kseq' in heads:
             return 'collect_functional_axioms|kseq-valued-substitution'
     return fn
+
+
+def build_pe(sc):
+    """Builds the semantics through the builder API and drives rewrite_event over the (unfaulted)
+    events; stops at the first refusal.  Used by C18 (K modules as serialisation targets)."""
+    from proof_generation.k.execution_proof_generation import ExecutionProofExp
+    from proof_generation.k.kore_convertion.language_semantics import LanguageSemantics, KSortVar
+    import proof_generation.proofs.kore as kl
+    symtab = {s['name']: s for s in sc['symbols']}
+    rules = sc['rules']
+    rule_order = [i for mi in range(len(sc['mods'])) for i, r in enumerate(rules) if r['module'] == mi]
+    ordinal_of = {ri: k for k, ri in enumerate(rule_order)}
+    varnum = {}
+    for ri, r in enumerate(rules):
+        vs = kvars(r['lhs']); kvars(r['rhs'], vs)
+        varnum[ri] = {v: i for i, v in enumerate(vs)}
+    sem = LanguageSemantics()
+    kmods = []
+    with sem as S:
+        for mi, m in enumerate(sc['mods']):
+            km = S.module(m['name'])
+            kmods.append(km)
+            with km as mod:
+                for j in m['imports']:
+                    mod.import_module(kmods[j])
+                for s_ in m['sorts']:
+                    (mod.hooked_sort if s_ in sc['hooked'] else mod.sort)(s_)
+                for sn in m['symbols']:
+                    sy = symtab[sn]
+                    if sy['params']:
+                        fr, to = KSortVar('From'), KSortVar('To')
+                        mod.symbol(sn, to, sort_params=(fr, to), input_sorts=(fr,), is_functional=True)
+                    else:
+                        srt = S.get_sort(sy['sort']) if mi else mod.get_sort(sy['sort'])
+                        mod.symbol(sn, srt, input_sorts=tuple(S.get_sort(sc['sorts'][0]) for _ in range(sy['arity'])),
+                                   is_functional=True, is_ctor=True, is_cell=sy['cell'])
+        for ri in rule_order:
+            r = rules[ri]
+            with kmods[r['module']] as mod:
+                mod.rewrite_rule(kl.kore_rewrites(sem.get_sort(r['sort']).aml_symbol, img(sem, r['lhs'], varnum[ri], sc), img(sem, r['rhs'], varnum[ri], sc)))
+    pe = ExecutionProofExp(sem, img(sem, sc['start'], {}, sc))
+    for e in sc['events']:
+        ri = e['rule']
+        try:
+            pe.rewrite_event(sem.get_axiom(ordinal_of[ri]), {varnum[ri][v]: img(sem, t, {}, sc) for v, t in e['subst'].items() if v in varnum[ri]})
+        except Exception:
+            break
+    return pe
 
 
 def img(sem, t, varnum, sc):
